@@ -13,8 +13,8 @@ META = {
 }
 
 QUICK = dict(MENUS='{"small","large"}', S_ITEMS=3, S_DEPTH=2, L_ITEMS=1, L_DEPTH=1)
-THOROUGH = [dict(MENUS='{"small"}', S_ITEMS=4, S_DEPTH=2, L_ITEMS=0, L_DEPTH=0),
-            dict(MENUS='{"large"}', S_ITEMS=0, S_DEPTH=0, L_ITEMS=2, L_DEPTH=2)]
+THOROUGH = [dict(MENUS='{"small"}', S_ITEMS=3, S_DEPTH=3, L_ITEMS=0, L_DEPTH=0),
+            dict(MENUS='{"large"}', S_ITEMS=0, S_DEPTH=0, L_ITEMS=2, L_DEPTH=1)]
 
 
 def run(ctx):
@@ -57,7 +57,7 @@ def run(ctx):
     verdicted = {sigkey(c["sig"]) for c in cands}
 
     # U3: random long programs on the real code, judged by TLC
-    nprog = 300 if ctx.quick else 6000
+    nprog = 300 if ctx.quick else 3000
     out = ctx.path("cb_rec.ndjson")
     ctx.run(binary, ["record", out, str(nprog)], timeout=1200)
     recs = read_ndjson(out)
